@@ -158,6 +158,18 @@ SPECS = [
          ],
          raises={'*': {'ensures': ["raised('e9') or raised('e10')"]}},
          serves=PROP + ["C02", "C07"]),
+    dict(id='S-Attribute-unquoted',
+         # an attribute written WITHOUT quotes can be computed like any other (C11: the template is not
+         # rejected); there is no quote character to escape, the value is escaped like text
+         text='A<p k=t tal:attributes="k e9">x</p>B',
+         ensures=[
+             "evals(9) == 1",
+             "S() == S0() + 'A<p' + ('' if quoted(val(9), None, '&#0;', 't', DEFAULT()) is None else "
+             "' k=' + piece(quoted(val(9), None, '&#0;', 't', DEFAULT()))) + '>x</p>B'",
+             "quote_calls() == 1",
+         ],
+         raises={'*': {'ensures': ["raised('e9')"]}},
+         serves=PROP + ["C02", "C07", "C11"]),
     dict(id='S-Attribute-default-under-target',
          # `default` keeps meaning "the static text" below an element that sets i18n:target (which binds
          # a name of its own for the subtree)
